@@ -20,7 +20,8 @@ func init() {
 	vf.Register(&vf.Check{ID: "C07", Level: "model_checking", Run: run, Replay: replay})
 }
 
-var opt = chain.Options{CheckLedger: true, CheckSupply: true, CheckForest: true}
+// The supply equation is C01's subject; C07 compares payouts element by element with the reference ledger (CheckLedger).
+var opt = chain.Options{CheckLedger: true, CheckForest: true}
 
 func menuV1(w *chain.World) []chain.Action {
 	return []chain.Action{
@@ -54,7 +55,7 @@ func run(c *vf.Ctx) {
 	// ---------------- (a) life cycles ----------------
 	variants := [][2]int{{2, 2}} // (D, K)
 	if !c.Quick() {
-		variants = [][2]int{{2, 2}, {3, 1}}
+		variants = [][2]int{{2, 2}, {3, 1}, {4, 1}}
 	}
 	for _, l := range lms {
 		for _, v := range variants {
@@ -207,7 +208,7 @@ func ruleAttacks(c *vf.Ctx, x *chain.Explorer, w *chain.World, path []string) {
 				continue
 			}
 			fc := fce.V2FileContract
-			if fc.ProofHeight >= h && fc.RevisionNumber < math.MaxUint64-2 {
+			if fc.ProofHeight >= h && fc.RevisionNumber < math.MaxUint64-2 && fc.MissedHostValue.Cmp(fc.HostOutput.Value) <= 0 {
 				mk := func(f func(rev *types.V2FileContract)) chain.Use {
 					rev := fc
 					f(&rev)
